@@ -132,6 +132,7 @@ def enumerate_paths(fv, rend=None, max_paths=50000):
         if count[0] > max_paths * 40:
             raise PathLimit()
         blocks = blocks + [b]
+        seen_pos = {bb: i for i, bb in enumerate(blocks)}
         env = step_env(env, b)
         t = fv.blocks[b]["t"]
         if t["t"] == "ret":
@@ -156,18 +157,67 @@ def enumerate_paths(fv, rend=None, max_paths=50000):
                     go(tgt, env, conds, blocks, seen | {tgt})
                 return
             br = brs.get(b)
+            # a switch on a local that is written in several places (the result slot of an expanded closure / combinator,
+            # a `let x = if .. {a} else {b}`): on this path its value is the definition last passed
+            if br is not None and qk is not None and not qk[1] and br.expr[0] in ("tmp", "var"):
+                cur, hops, e_path, multi = qk[0], 0, None, False
+                while hops < 24:
+                    hops += 1
+                    live_defs = [d for d in fv.defs().get(cur, []) if d[0] in fv.live]
+                    if len(live_defs) > 1:
+                        multi = True
+                    ds = [d for d in live_defs if d[0] in seen_pos]
+                    if not ds:
+                        break
+                    bi2, si2, st2 = max(ds, key=lambda d: seen_pos[d[0]])
+                    if si2 != "t" and st2["rv"]["r"] == "use":
+                        q2 = st2["rv"]["o"].get("c") or st2["rv"]["o"].get("m")
+                        if q2 is not None and not q2.get("p"):
+                            cur = q2["l"]
+                            continue
+                        break
+                    if multi:
+                        e_path = rend.call_expr(st2, rend.depth, bi2) if si2 == "t" else rend.rvalue(st2["rv"], rend.depth)
+                    break
+                if e_path is not None:
+                    from .cfg import _Cond
+                    c2 = _Cond(e_path, b)
+                    c2.cases, c2.otherwise, c2.ty = br.cases, br.otherwise, br.ty
+                    c2.label = br.label
+                    br = c2
             done = set()
+            pure_key = _pure_key(br.expr) if br is not None else None
             for v, nb in succ:
                 if nb in seen or nb not in fv.live or (v, nb) in done:
                     continue
                 done.add((v, nb))
                 labels = _labels_for(br, fv.prog, v) if br is not None else {str(v)}
+                if pure_key is not None:
+                    # the same side-effect-free test of never-reassigned variables taken twice on one path: outcomes must agree
+                    prev = [l for b0, l in conds if _pure_key(b0.expr) == pure_key]
+                    if prev and not (frozenset(labels) & prev[-1]) and "else" not in labels and "else" not in prev[-1]:
+                        continue
                 go(nb, env, conds + [(br, frozenset(labels))], blocks, seen | {nb})
             return
         for v, nb in succ:
             if nb in seen or nb not in fv.live:
                 continue
             go(nb, env, conds, blocks, seen | {nb})
+
+    from .cfg import walk as _walk, show as _show
+
+    def _pure_key(e):
+        """Text of a branch expression built only from parameters / single-assignment locals, fields and constants."""
+        for x in _walk(e):
+            if not isinstance(x, tuple) or not x:
+                continue
+            if x[0] in ("call", "tmp"):
+                return None
+            if x[0] == "var":
+                ls = [l for l, n in fv.local_name.items() if n == x[1]]
+                if any(len([d for d in fv.defs().get(l, []) if d[0] in fv.live]) > 1 for l in ls):
+                    return None
+        return _show(e, 300)
 
     go(fv.entry, {}, [], [], {fv.entry})
     return out
